@@ -108,6 +108,39 @@ def run(repo: Repo, chk: Check) -> None:
                 chk.ob('R-DISPATCH', fi.qualname, not handled and bool(res), 'unknown curve rejected', fi.loc, what=f'{fname} accepts an unknown curve')
 
     # ---- 2 digest agreement ------------------------------------------------------------------------------------------
+    # ---- 1b the public key of a secret key is what the curve's library derives from that secret (a signature can only verify under it) -------
+    chk.set_clause('C07.1')
+    fse = repo.func(f'{KEY}.from_secret_exponent')
+
+    def ext_names(t, out):
+        if isinstance(t, App):
+            if t.op == 'ext':
+                out.append(t.args[0])
+            for a in t.args:
+                ext_names(a, out)
+        return out
+
+    def mentions_secret(t) -> bool:
+        if isinstance(t, Sym):
+            return t.name == 'secret_exponent'
+        return isinstance(t, App) and any(mentions_secret(a) for a in t.args)
+
+    nder = 0
+    for curve, nbytes, form in ((b'ed', 32, 'ed/seed'), (b'ed', 64, 'ed/sk64'), (b'sp', 32, 'sp'), (b'p2', 32, 'p2'), (b'BL', 32, 'BL')):
+        h = KeyHooks(repo)
+        h.known_lengths = True  # len() of a symbol of declared length is that length: the Ed25519 branch is chosen on it
+        res = Interp(repo, h, max_depth=2).run_function(fse, [Sym('secret_exponent', 'bytes', length=nbytes)], {'curve': curve}, self_val=ClassRef(KEY))
+        rets = [p for p in res if p.outcome == 'return' and isinstance(p.value, Obj)]
+        want = EXT['public_key_derivation'][form]
+        pps = [p.value.fields.get('public_point') for p in rets]
+        ok = bool(pps) and all(ext_names(pp, [])[:len(want)] == want and mentions_secret(pp) for pp in pps)
+        nder += 1
+        chk.ob('R-FLOW', fse.qualname, ok, f'{form} ({nbytes}-byte secret): public point = {" of ".join(want)}(secret)', fse.loc,
+               {'public_point': [vrepr(pp)[:200] for pp in pps]},
+               what=f'{form}: the public key of a {nbytes}-byte secret is computed as {[vrepr(pp)[:120] for pp in pps]}, not by {" of ".join(want)} applied to the '
+                    'secret: signatures made with the secret do not verify under that public key')
+    chk.minimum('public key derivations', nder, 5)
+
     chk.set_clause('C07.2')
     ref_digest = {b'ed': 'blake2b-256', b'sp': 'blake2b-256', b'p2': 'blake2b-256', b'BL': 'identity'}
     for curve in CURVES:
